@@ -43,7 +43,6 @@ var panicForeignReviewed = map[string]string{
 	"parser.parseStringLiteral|string|":                                                         "the scanner only accepts a literal whose every backslash is followed by a character (scanString/scanEscape)",
 	"parser.parseStringLiteral|string|#2":                                                       "a \\u/\\x escape has at most 4 hex digits: the value cannot exceed 0xFFFF",
 	"testObjectCoercible|string|default-of-switch(valueKind:.kind)":                             "covers every kind except the completion record valueResult, which is never passed as a this/argument value",
-	"(*runtime).convertCallParameter$2|dynamic:error|":                                          "propagates the *Error returned by Value.Call (a script exception raised inside a JS callback invoked from Go): catchPanic handles *Error",
 	"(*objectStash).createBinding|string|":                                                      "stasher protocol: callers test hasBinding first",
 	"(*dclStash).createBinding|error(Errorf)|":                                                  "stasher protocol: callers test hasBinding first",
 	"(*dclStash).setBinding|error(Errorf)|":                                                     "stasher protocol: callers test hasBinding first",
@@ -52,8 +51,6 @@ var panicForeignReviewed = map[string]string{
 	"arrayDefineOwnProperty|string|":                                                            "array length is a data property by construction (newArrayObject) and 15.4.5.1 never lets it become an accessor",
 	"sameValue|string|default-of-switch(valueKind:.kind)":                                       "operands are script-visible values: one of the six ES5 kinds",
 	"strictEqualityComparison|string|default-of-switch(valueKind:.kind)":                        "operands are script-visible values: one of the six ES5 kinds",
-	"(Value).toReflectValue|error(Errorf)|after-switch(reflect.Kind:var)":                       "returns an error on every supported path; the trailing panic is reached only for reflect kinds no bridged container can have",
-	"stringToReflectValue|error(Errorf)|after-switch(reflect.Kind:var)":                         "map key kinds are restricted by the caller (goMapObject) to the handled ones",
 	"(Value).bool|string|":                                                                      "dead by REPR-value: every payload type of a boolean/number/string Value is handled",
 	"(Value).float64|error(Errorf)|":                                                            "dead by REPR-value",
 	"(Value).string|error(Errorf)|":                                                             "dead by REPR-value",
